@@ -39,7 +39,11 @@ type Case struct {
 	Drained bool `json:"drained,omitempty"`
 }
 
-const waitLimit = 3 * time.Second
+// waitLimit bounds every wait for a reaction of the implementation; once a wait has timed out (the
+// implementation is broken: the run is a violation anyway) later waits are cut short so that the run still ends.
+var waitLimit = 3 * time.Second
+
+func timedOut() { waitLimit = 30 * time.Millisecond }
 
 const silencePeriod = 300 * time.Microsecond
 
@@ -82,6 +86,7 @@ type run struct {
 	problems []string
 
 	inprog, sleepers int
+	sched            map[string]int // what the script managed to set up (independent of the manager's reactions)
 }
 
 func (r *run) problem(f string, a ...any) {
@@ -211,6 +216,7 @@ func waitFor(cond func() bool) bool {
 	dl := time.Now().Add(waitLimit)
 	for !cond() {
 		if time.Now().After(dl) {
+			timedOut()
 			return false
 		}
 		runtime.Gosched()
@@ -222,6 +228,12 @@ func (r *run) step(o Op) {
 	switch o.Op {
 	case "invoke":
 		h := len(r.invs)
+		if r.inprog+r.sleepers > 0 {
+			r.sched["sched.invoke-while-not-quiet"]++
+		}
+		if len(r.running(-1)) >= r.conc {
+			r.sched["sched.invoke-while-slots-busy"]++
+		}
 		mode := o.Mode
 		if mode != "prompt" {
 			mode = "manual"
@@ -242,6 +254,12 @@ func (r *run) step(o Op) {
 		waitFor(func() bool { return r.count("invoke") > n0 })
 	case "prio":
 		before := r.running(-1)
+		if len(before) > 0 {
+			r.sched["sched.prio-while-body-running"]++
+		}
+		if r.inprog+r.sleepers > 0 {
+			r.sched["sched.prio-nested"]++
+		}
 		r.m.DoPrioritizedTask()
 		r.inprog++
 		// clause: a body that is running when a prioritized task begins has its context cancelled
@@ -250,6 +268,7 @@ func (r *run) step(o Op) {
 			case <-b.ctx.Done():
 			case <-b.ended:
 			case <-time.After(waitLimit):
+				timedOut()
 				r.problem("not-cancelled: execution %d of invocation %d was running when a prioritized task began and its context was not cancelled", b.k, b.inv)
 			}
 		}
@@ -276,6 +295,7 @@ func (r *run) step(o Op) {
 			select {
 			case <-b.ended:
 			case <-time.After(waitLimit):
+				timedOut()
 				r.problem("harness: body did not end")
 			}
 		}
@@ -313,6 +333,7 @@ func (r *run) drain() bool {
 			return true
 		}
 		if time.Now().After(dl) {
+			timedOut()
 			return false
 		}
 		runtime.Gosched()
@@ -320,8 +341,8 @@ func (r *run) drain() bool {
 }
 
 // exec runs one scripted schedule against the implementation.
-func exec(c Case) ([]Ev, bool, []string) {
-	r := &run{conc: c.Conc, gate: make(chan struct{}, 1024), bodies: map[*body]bool{}}
+func exec(c Case) ([]Ev, bool, []string, map[string]int) {
+	r := &run{conc: c.Conc, gate: make(chan struct{}, 1024), bodies: map[*body]bool{}, sched: map[string]int{}}
 	task.VerifOnEvent(r.sink)
 	r.m = task.NewBackgroundTaskManager(int64(c.Conc), silencePeriod)
 	for _, o := range c.Ops {
@@ -345,7 +366,7 @@ func exec(c Case) ([]Ev, bool, []string) {
 	tr := append([]Ev{}, r.log...)
 	r.mu.Unlock()
 	r.traceOracle(tr)
-	return tr, drained, r.problems
+	return tr, drained, r.problems, r.sched
 }
 
 // traceOracle evaluates the property clauses on the linearised event trace (no model involved).
@@ -482,7 +503,10 @@ func gen(r *hx.Rng, tier string) Case {
 func main() {
 	ctx := hx.Start()
 	emit := func(c Case) {
-		tr, drained, problems := exec(c)
+		tr, drained, problems, sched := exec(c)
+		for k, v := range sched {
+			ctx.CountN(k, v)
+		}
 		c.Trace, c.Drained = tr, drained
 		for _, o := range c.Ops {
 			ctx.Count("op." + o.Op)
